@@ -210,7 +210,8 @@ def generate(st):
     for j in range(cfg['slots']):
         c = _gen_config(g)
         c['adj'] = g.choice(['f', 'p', 'm'])
-        ops.append(dict(op='new_cal', slot=j, **c))
+        # an object built directly is nobody's registration, even when it carries the key of a registered calendar
+        ops.append(dict(op='new_cal', slot=j, ckey=(g.choice(keys) if g.random() < 0.4 else None), **c))
         current['slot:%d' % j] = c
     targets = sorted(current)
     last_target = None
@@ -252,6 +253,10 @@ def generate(st):
             # queries land right after the re-registration
             for _ in range(g.choice([1, 2, 3])):
                 ops.append(query('key:' + key))
+            if g.random() < 0.35:
+                ops.append({'op': 'stale_use', 'key': key, 't': _iso(_interesting_dates(old, g, 1)[0])})
+                for _ in range(g.choice([1, 2])):
+                    ops.append(query('key:' + key))
             last_target = 'key:' + key
         else:
             # alternate targets so that cross-talk between calendars would show
@@ -275,6 +280,7 @@ def execute(trace, ctx=None):
     refs = {}        # target -> Ref of the configuration last registered
     slots = {}
     registered_count = {}
+    stale = {}       # target -> (calendar object registered before the last re-registration, its reference)
     warmed = {}      # target -> True once a table-building query ran on the current object
     state = {'step': 0}
 
@@ -299,6 +305,29 @@ def execute(trace, ctx=None):
                 SimClock.advance(datetime.timedelta(seconds=op['s']))
                 res.fault('clock_jump_back' if op['s'] < 0 else 'clock_jump_fwd' if op['s'] > 3600 else 'clock_tick')
                 continue
+            if kind == 'stale_use':
+                # the holder of an object registered EARLIER under this key keeps using it (methods and module-level functions
+                # that take a calendar object); it answers by its own holidays, and the key keeps answering by the latest
+                so = stale.get('key:' + op['key'])
+                if so is None:
+                    continue
+                sobj, sref = so
+                t = _d(op['t'])
+                if not sref.inside(t) or sref.long_run(t) or (sref.t1 - sref.t0).days > 40000:
+                    continue
+                import pandas as pd
+                from pyg_base import clock as clock_fn
+                t2 = t + 9 * DAY
+                if sref.inside(t2):
+                    ab = lib(lambda: clock_fn(pd.Series([1.0, 2.0], index=[t, t2]), sobj), 'clock(series, earlier calendar object)')
+                    if int(ab[1]) - int(ab[0]) != sref.bdays(t, t2):
+                        raise Violation('bdays', 'an earlier calendar object of %s: clock difference over 9 days = %r, counting by ITS holidays gives %r'
+                                        % (op['key'], int(ab[1]) - int(ab[0]), sref.bdays(t, t2)), k)
+                got = lib(lambda: sobj.is_bday(t), 'earlier_object.is_bday')
+                if bool(got) != sref.is_bday(t):
+                    raise Violation('is-bday', 'an earlier calendar object of %s answers is_bday(%s) = %r, by its own holidays %r' % (op['key'], op['t'], got, sref.is_bday(t)), k)
+                res.probe('earlier-object-used-after-reregistration')
+                continue
             if kind == 'register_bad':
                 hol = [_d(h) for h in op['hol']]
                 kw = {'t0': None, 't1': None}
@@ -316,7 +345,7 @@ def execute(trace, ctx=None):
                 t0, t1 = _d(op['t0']), _d(op['t1'])
                 weekend = list(op['weekend'])
                 if kind == 'new_cal':
-                    cal = lib(lambda: Calendar('slot%d' % op['slot'], holidays=hol, weekend=weekend, t0=t0, t1=t1, adj=op.get('adj', 'm')), 'Calendar(...)')
+                    cal = lib(lambda: Calendar(op.get('ckey') or 'slot%d' % op['slot'], holidays=hol, weekend=weekend, t0=t0, t1=t1, adj=op.get('adj', 'm')), 'Calendar(...)')
                     slots[op['slot']] = cal
                     refs['slot:%d' % op['slot']] = Ref(hol, weekend, t0, t1, op.get('adj', 'm'))
                     warmed['slot:%d' % op['slot']] = False
@@ -325,6 +354,10 @@ def execute(trace, ctx=None):
                 tkey = 'key:' + key
                 via = op.get('via', 'args')
                 if tkey in refs:
+                    try:
+                        stale[tkey] = (calendar(key), refs[tkey])      # somebody still holds the object registered before
+                    except Exception:
+                        pass
                     res.fault('reregistration')
                     if warmed.get(tkey):
                         res.probe('reregistration-over-warm-table')
@@ -512,8 +545,16 @@ def execute(trace, ctx=None):
                 t2 = t + 9 * DAY
                 if not ref.inside(t2):
                     continue
-                a = lib(lambda: cal.clock(tl), what)
-                b = lib(lambda: cal.clock(t2), what)
+                if k % 2:
+                    import pandas as pd
+                    from pyg_base import clock as clock_fn
+                    # the module-level form: the calendar object is an ARGUMENT here, using it registers nothing
+                    ab = lib(lambda: clock_fn(pd.Series([1.0, 2.0], index=[t, t2]), cal), 'clock(series, calendar_object)')
+                    a, b = int(ab[0]), int(ab[1])
+                    res.probe('module-level-clock-with-calendar-object')
+                else:
+                    a = lib(lambda: cal.clock(tl), what)
+                    b = lib(lambda: cal.clock(t2), what)
                 if b - a != ref.bdays(t, t2):
                     raise Violation('bdays', '%s: clock difference over 9 days = %r, counting gives %r' % (what, b - a, ref.bdays(t, t2)), k)
                 warmed[target] = True
